@@ -4,3 +4,16 @@
 #![allow(missing_docs, clippy::unwrap_used, missing_debug_implementations, unreachable_pub)]
 
 pub use iroh_base::verif_hooks as sched;
+pub mod c24;
+pub mod c23;
+pub mod c27;
+pub mod c28;
+pub mod c25;
+pub mod c18;
+pub mod c30;
+pub mod c26;
+pub mod c01;
+pub mod c17;
+pub mod c22;
+pub mod c19;
+pub mod c21;
